@@ -1,5 +1,6 @@
 import FlexModel.Proto
 import FlexModel.Geo.LT
+import FlexModel.Geo.LTOrig
 namespace FlexModel.Geo
 open FlexModel.Proto
 
@@ -32,6 +33,16 @@ def ltStep (_ : Unit) (t : List String) : Unit × String :=
     match nat? r, nat? m with
     | some r, some m => ((), if recvHopGuard r m then "1" else "0")
     | _, _ => ((), "bad-op")
+  | ["orig", sec, c, tr, req, d, ms, dS] =>
+    -- secured/unsecured origination: `ms` = "-" when the request names no lifetime
+    match nat? sec, nat? c, transport? tr, nat? req, nat? d, nat? dS with
+    | some sec, some c, some tr, some req, some d, some dS =>
+      match (if ms == "-" then some none else (nat? ms).map some) with
+      | some rq =>
+        let o := originate (sec != 0) (c != 0) tr req d rq dS
+        ((), joinNat [o.hdr.nh, o.hdr.lt.encode, o.hdr.rhl, o.mhl, if o.secured then 1 else 0])
+      | none => ((), "bad-op")
+    | _, _, _, _, _, _ => ((), "bad-op")
   | _ => ((), "bad-op")
 
 def ltDomain : Domain := { σ := Unit, init := (), step := ltStep }
